@@ -498,7 +498,8 @@ def do_replay(mod, path):
 
 
 def finish(mod, rep, args, t0):
-    os.makedirs(os.path.join(VERIF, "evidence"), exist_ok=True)
+    evdir = os.environ.get("VERIF_EVIDENCE_DIR") or os.path.join(VERIF, "evidence")
+    os.makedirs(evdir, exist_ok=True)
     os.makedirs(os.path.join(VERIF, "replays"), exist_ok=True)
     wall = time.time() - t0
     level = getattr(mod, "LEVEL", "proof")
@@ -530,7 +531,7 @@ def finish(mod, rep, args, t0):
     ev = {"property_id": rep.prop, "tier": rep.tier, "seed": rep.seed, "level": level, "coverage": cov,
           "assumptions": sorted(rep.assumptions | set(getattr(mod, "ASSUMPTIONS", []))),
           "wall_s": round(wall, 2), "violations": len(rep.violations)}
-    with open(os.path.join(VERIF, "evidence", rep.prop + ".json"), "w") as f:
+    with open(os.path.join(evdir, rep.prop + ".json"), "w") as f:
         json.dump(ev, f, indent=1, default=repr)
     if args.record_baseline and not rep.violations and not rep.undecided:
         os.makedirs(os.path.join(VERIF, "contracts", "baseline"), exist_ok=True)
